@@ -234,3 +234,31 @@ package bitswap
 //@   callpre bitswap.NewEmptyRangeNamespaceDataBlock: $arg0 == hdr.Height() && $arg1 == from && $arg2 == to && $arg3 == len(hdr.DAH.RowRoots) / 2
 //@   callpre bitswap.Fetch: $arg2 == hdr.DAH && $arg3 == blks
 //@   ensures err != nil ==> result0.Shares == nil && result0.FirstIncompleteRowProof == nil && result0.LastIncompleteRowProof == nil
+
+// C10, serving side: a populated row-namespace block always marshals - an absence answer (no shares, a proof
+// of absence) included; the one refusal is the container that was never filled (no proof at all), and the
+// only other failure is the protobuf encoder's own ($MarshalErr).
+//@ extern (*github.com/celestiaorg/celestia-node/share/shwap/pb.RowNamespaceData).Marshal
+//@   effect $MarshalErr := err != nil
+//@ func (*RowNamespaceDataBlock).Marshal
+//@   property C10
+//@   noframe
+//@   requires rndb != nil && !$MarshalErr
+//@   havoc $MarshalErr
+//@   ensures rndb.Container.Proof != nil && !$MarshalErr ==> err == nil
+//@   ensures rndb.Container.Proof == nil ==> err != nil
+
+// C06: the square the Bitswap getter hands back. The fetched rows were verified one by one against their
+// row roots; the square built from them is returned only after rsmt2d.Repair - given the header's own row
+// and column roots - accepted it ($Repaired): that is the one step in which the extended part and the
+// column roots are compared with the header, so no faster construction may stand in for it.
+//@ extern (*github.com/celestiaorg/rsmt2d.ExtendedDataSquare).Repair
+//@   effect $Repaired := err == nil
+//@ func edsFromRows
+//@   property C06
+//@   noframe
+//@   requires roots != nil && !$Repaired
+//@   havoc $Repaired
+//@   callpre ExtendedDataSquare).Repair: $arg0 == square && $arg1 == roots.RowRoots && $arg2 == roots.ColumnRoots
+//@   ensures err == nil ==> $Repaired
+//@   ensures err != nil ==> result0 == nil
